@@ -7,6 +7,7 @@ import (
 	"strings"
 	"testing"
 	"unicode"
+	"unicode/utf8"
 
 	"go.miragespace.co/specter/cmd/verifexport"
 	"verifharness/internal/ev"
@@ -42,15 +43,22 @@ type refMode struct {
 }
 
 func refTrim(s string) string {
-	r := []rune(s)
-	i, j := 0, len(r)
-	for i < j && unicode.IsSpace(r[i]) {
-		i++
+	// byte-preserving: invalid UTF-8 is never a blank and must come back unchanged
+	for len(s) > 0 {
+		r, w := utf8.DecodeRuneInString(s)
+		if !unicode.IsSpace(r) || (r == utf8.RuneError && w == 1) {
+			break
+		}
+		s = s[w:]
 	}
-	for j > i && unicode.IsSpace(r[j-1]) {
-		j--
+	for len(s) > 0 {
+		r, w := utf8.DecodeLastRuneInString(s)
+		if !unicode.IsSpace(r) || (r == utf8.RuneError && w == 1) {
+			break
+		}
+		s = s[:len(s)-w]
 	}
-	return string(r[i:j])
+	return s
 }
 
 func refCoalesce(in []string) []string {
@@ -316,7 +324,7 @@ var (
 	// hosts that are not IP literals and must be rejected
 	c47Bad = []string{"localhost", "example.com", "Fly-Global-Services", "fly-global-services.", "fly-global-service", "256.1.1.1", "1.2.3", "01.2.3.4", "1.2.3.4.5", "*", "0x7f.0.0.1", "a b"}
 	c47WS  = []string{" ", "  ", "\t", "\n", "\r\n", "\v", "\f", " \t ", "\u00a0", "\u3000", "\u0085"}
-	c47Pt  = []string{"80", "0", "443", "65535", "53", "", "http", "99999", "8080"}
+	c47Pt  = []string{"80", "0", "443", "65535", "53", "", "http", "99999", "8080", "\xd2", "8\xff0"}
 )
 
 func genC47Entry(t *rapid.T, pool *[]c47Entry, allowBad bool) c47Entry {
@@ -507,6 +515,7 @@ func FuzzC47(f *testing.F) {
 	f.Add("tcp", ":443", "missing-port", true)
 	f.Add("tcp", "example.com:80,[fe80::1%eth0]:1,[::ffff:1.2.3.4]:2", "", false)
 	f.Add("", "\t[2001:db8::1]:0\n,, ,1.2.3.4:", ",", true)
+	f.Add("0", "0", ":\xd2", true) // invalid UTF-8 must pass through the trimming untouched
 	rec := ev.New(f, "C47fuzz")
 	split := func(s string, present bool) []string {
 		if !present {
